@@ -183,3 +183,34 @@ pub enum UntaggedChar { Ch(char), Pair(u8, u8) }
 
 #[derive(Serialize, Deserialize)]
 pub struct OptOpt { pub a: Option<Option<u8>> }
+
+// ---- fields skipped at run time: `skip_serializing_if` (serde_derive lowers the `len` it passes and calls `skip_field`)
+
+#[derive(Serialize, Deserialize)]
+pub struct Record {
+    pub id: u32,
+    #[serde(default, skip_serializing_if = "Option::is_none")] pub note: Option<String>,
+    #[serde(default, skip_serializing_if = "Vec::is_empty")] pub tags: Vec<u8>,
+    pub last: bool
+}
+
+#[derive(Serialize, Deserialize)]
+pub struct AllSkip {
+    #[serde(default, skip_serializing_if = "Option::is_none")] pub a: Option<u8>,
+    #[serde(default, skip_serializing_if = "Vec::is_empty")] pub b: Vec<Option<i16>>
+}
+
+#[derive(Serialize, Deserialize)]
+pub enum Event {
+    Ping,
+    Update {
+        seq: u64,
+        #[serde(default, skip_serializing_if = "Option::is_none")] comment: Option<String>,
+        #[serde(default, skip_serializing_if = "Vec::is_empty")] path: Vec<u16>
+    },
+    Note { #[serde(default, skip_serializing_if = "Option::is_none")] text: Option<Point> }
+}
+
+#[derive(Serialize, Deserialize)]
+pub struct Holder { pub r: Record, pub e: Event, pub z: u8 }
+
